@@ -255,6 +255,34 @@ let handle (fields : string list) : string =
     let (n, es) = atom_graph (List.map aelem_of (lst (parse_sexp elems))) in
     let kn = function WStatic -> "static" | WStoch -> "stochastic" | WTerm -> "termination" | WTrans -> "transition" in
     string_of_z n ^ " " ^ String.concat ";" (List.map (fun e -> Printf.sprintf "%s>%s:%s:%s:%s" (string_of_z e.a_u) (string_of_z e.a_v) (string_of_z e.a_bt) (kn e.a_kind) (string_of_q e.a_w)) es)
+  | [ "agen"; nodes; statics; start; pk; tg ] ->
+    (* nodes: ';'-separated  mass|mw|mn|T|E|S|adj ; edge lists: ','-separated v:bt:w ; adj: ','-separated ints *)
+    let ni x = nat_of_int (int_of_string x) in
+    let edges_of x = List.map (fun e -> match String.split_on_char ':' e with
+        | [v; bt; w] -> { se_v = ni v; se_bt = z_of_string bt; se_w = q_of_string w } | _ -> failwith "sedge") (split_nonempty ',' x) in
+    let node_of x = (match String.split_on_char '|' x with
+        | [m; mw; mn; t; e; sc; adj] ->
+          { sn_mass = q_of_string m; sn_key = (q_of_string mw, q_of_string mn); sn_T = edges_of t; sn_E = edges_of e; sn_S = edges_of sc;
+            sn_adj = List.map ni (split_nonempty ',' adj) }
+        | _ -> failwith "snode") in
+    let g = { sg_nodes = List.map node_of (split_nonempty ';' nodes);
+              sg_static = List.map (fun e -> match String.split_on_char ':' e with
+                  | [u; v; bt] -> ((ni u, ni v), z_of_string bt) | _ -> failwith "static") (split_nonempty ',' statics) } in
+    let pk = List.map ni (split_nonempty ',' pk) in
+    let tg = List.map q_of_string (split_nonempty ',' tg) in
+    (match run_agen g (ni start) pk tg with
+     | Done (st, rs) ->
+       Printf.sprintf "done nodes=%s edges=%s mw=%s trace=%s picks_left=%d targets_left=%d"
+         (String.concat "," (List.map (fun n -> Printf.sprintf "%d@%d" (int_of_nat n.g_sn) (int_of_nat n.g_inst)) st.a_nodes))
+         (String.concat ";" (List.map (fun e -> Printf.sprintf "%d-%d-%s-%s" (int_of_nat e.ge_a) (int_of_nat e.ge_b) (string_of_z e.ge_bt) (if e.ge_link then "L" else "S")) st.a_edges))
+         (String.concat "," (List.map string_of_q (List.rev st.a_mw)))
+         (String.concat "," (List.rev_map (function EvChoice (c, _, k) -> Printf.sprintf "c%d:%d" (List.length c) (int_of_nat k) | EvDraw _ -> "d") rs.trace))
+         (List.length rs.picks) (List.length rs.targets)
+     | GErr (e, m) -> "err " ^ err_name e ^ " " ^ implode m
+     | NeedPicks k -> Printf.sprintf "needpicks %d" (int_of_nat k)
+     | NeedTarget -> "needtarget"
+     | BadPick -> "badpick"
+     | OutOfFuel -> "outoffuel")
   | [ "token"; raw; off; valid ] ->
     (* valid: comma separated hex of the bracket atoms RDKit accepts *)
     let vs = List.map unhex (split_nonempty ',' valid) in
